@@ -247,6 +247,24 @@ Section WithPrimitives.
   Definition encrypt_data (s : side) (k : authkey) (h : hdr) (mlen : Z) (body rnd : list Z) : res err (list Z) :=
     encrypt_plain s k (encode_data h mlen body) rnd.
 
+  (* ---------- mtproto/new_encrypted_msg.go: Conn.newEncryptedMessage ---------- *)
+  (* The connection (always the client side) fills the header from its session (salt, session id)
+     and the caller's (msg_id, seq_no) on each of its three branches:
+       compressThreshold <= 0                   : EncryptedMessageData{Message: payload}
+       len(encoded payload) > compressThreshold : EncryptedMessageData{Message: proto.GZIP{Data: encoded}}
+       otherwise                                : explicit MessageDataLen / MessageDataWithPadding.
+     [gz] is the TL encoding of proto.GZIP{Data: payload} (DEFLATE itself is not modelled: the bytes
+     are an input). *)
+  Definition conn_body (threshold : Z) (payload gz : list Z) : list Z :=
+    if threshold <=? 0 then payload
+    else if Z.of_nat (length payload) >? threshold then gz else payload.
+  Definition conn_encrypt (threshold : Z) (k : authkey) (salt session msg_id seq_no : Z)
+             (payload gz rnd : list Z) : res err (list Z) :=
+    let h := {| h_salt := salt; h_session := session; h_msg_id := msg_id; h_seq_no := seq_no |} in
+    if threshold <=? 0 then encrypt Client k h payload rnd
+    else if Z.of_nat (length payload) >? threshold then encrypt Client k h gz rnd
+    else encrypt_data Client k h (Z.of_nat (length payload)) payload rnd.
+
   (* ---------- cipher_decrypt.go ---------- *)
   (* EncryptedMessage.DecodeWithoutCopy: ConsumeN(8), Int128, rest *)
   Definition open_envelope (buf : list Z) : option (list Z * list Z * list Z) :=
